@@ -277,6 +277,12 @@ func init() {
 			return nil
 		},
 		"symIsSymbolic": func(p *Path, fr *frame, args []value) value { return Bool(p.concreteInputs == nil) },
+		// symMapOrderAll(): fork once; on one side every map without an explicit
+		// permutation is ranged in reverse insertion order (two of the legal Go orders).
+		"symMapOrderAll": func(p *Path, fr *frame, args []value) value {
+			p.revMaps = p.symChooseN("maporderall", 2) == 1
+			return nil
+		},
 		// symContains(s, sub): strings.Contains as a single term (no forking)
 		"symContains": func(p *Path, fr *frame, args []value) value {
 			s, sub := strBytes(args[0]), strBytes(args[1])
